@@ -1348,6 +1348,11 @@ func (t *NftablesTable) applyUpdates() error {
 	for chainName := range t.dirtyChains.All() {
 		t.logCxt.WithField("chainName", chainName).Debug("Checking dirty chain")
 		if _, present := t.desiredStateOfChain(chainName); !present {
+			if _, inDataplane := t.chainToDataplaneHashes[chainName]; !inDataplane {
+				// Chain was never programmed (added and removed again before this
+				// apply); flushing a non-existent chain would fail the transaction.
+				continue
+			}
 			// About to delete this chain, flush it first to sever dependencies.
 			t.logCxt.WithFields(logrus.Fields{
 				"chainName": chainName,
@@ -1459,6 +1464,10 @@ func (t *NftablesTable) applyUpdates() error {
 	// above).
 	for chainName := range t.dirtyChains.All() {
 		if _, ok := t.desiredStateOfChain(chainName); !ok {
+			if _, inDataplane := t.chainToDataplaneHashes[chainName]; !inDataplane {
+				// Never programmed, nothing to delete.
+				continue
+			}
 			// Chain deletion
 			t.logCxt.WithFields(logrus.Fields{
 				"chainName": chainName,
